@@ -667,3 +667,312 @@ def d4_init(ctx, idx, fam):
             r.undecided('MatrixGrader.__init__ [unvalidated peek]', 'expected one conditional expression', mg.loc)
         if n_sub < 17:
             r.undecided('<constructors>', 'only %d subclass constructors found (17 reviewed)' % n_sub)
+
+
+# ----------------------------------------------------------------------------- D5
+def guards_of(node, fn_node):
+    """Canonical conditions under which `node` runs: tests of the enclosing ifs (negated for a plain else;
+    the earlier tests of an elif chain are not repeated), innermost last."""
+    out = []
+    child = node
+    for a in ancestors(node):
+        if a is fn_node:
+            break
+        if isinstance(a, ast.If):
+            if any(child is s for s in a.body):
+                out.append(nf.canon(a.test))
+            elif any(child is s for s in a.orelse):
+                out.append(nf.negate(nf.canon(a.test)))
+        child = a
+    # drop the negations contributed by elif chains: an If that is the sole statement of an orelse
+    res = []
+    child = node
+    chain = []
+    for a in ancestors(node):
+        if a is fn_node:
+            break
+        if isinstance(a, ast.If):
+            if any(child is s for s in a.body):
+                chain.append(('pos', a))
+            elif any(child is s for s in a.orelse):
+                is_elif = len(a.orelse) == 1 and a.orelse[0] is child and isinstance(child, ast.If)
+                chain.append(('elif' if is_elif else 'neg', a))
+        child = a
+    for kind, a in reversed(chain):
+        if kind == 'pos':
+            res.extend(nf.conjuncts(nf.canon(a.test)))
+        elif kind == 'neg':
+            res.extend(nf.conjuncts(nf.negate(nf.canon(a.test))))
+    return res
+
+
+def enclosing_loop_iters(node, fn_node):
+    out = []
+    for a in ancestors(node):
+        if a is fn_node:
+            break
+        if isinstance(a, (ast.For,)):
+            out.append(a.iter)
+    return out
+
+
+class Cross(object):
+    def __init__(self, key, func, pattern, what, classes=('ConfigError',), loop=None, inline=4, handler=None):
+        self.key = key
+        self.func = func
+        self.patterns = pattern if isinstance(pattern, (list, tuple)) else [pattern]
+        self.what = what
+        self.classes = classes
+        self.loop = loop          # pattern of the enclosing for-loop's iterable
+        self.inline = inline      # rounds of forward substitution of single-assignment locals
+        self.handler = handler    # raise sits in `except <handler>` instead of under an if
+
+
+MHQ = 'mitxgraders.helpers.math_helpers.'
+LGQ = 'mitxgraders.listgrader.ListGrader.'
+SLQ = 'mitxgraders.listgrader.SingleListGrader.'
+SQM = 'mitxgraders.matrixsampling.SquareMatrices.__init__'
+IVQ = 'mitxgraders.formulagrader.intervalgrader.IntervalGrader.'
+SGB = 'mitxgraders.formulagrader.integralgrader.SummationGraderBase.'
+C_ = "self.config['%s']"
+DET0 = "self.config['determinant'] == 0"
+DET1 = "self.config['determinant'] == 1"
+
+CROSS_RULES = [
+    Cross('whitelist+blacklist', MHQ + 'validate_blacklist_whitelist_config', 'blacklist and whitelist',
+          'whitelist and blacklist may not be used together'),
+    Cross('unknown blacklisted name', MHQ + 'validate_blacklist_whitelist_config', '_F not in default_funcs',
+          'a blacklisted name must be a default function', loop='blacklist'),
+    Cross('unknown whitelisted name', MHQ + 'validate_blacklist_whitelist_config', '_F not in default_funcs',
+          'a whitelisted name must be a default function', loop='whitelist'),
+    Cross('override warning', MHQ + 'warn_if_override',
+          ["set(defaults).intersection(set(config[key])) and not config.get('suppress_warnings', False)",
+           "set(config[key]).intersection(set(defaults)) and not config.get('suppress_warnings', False)",
+           "set(defaults) & set(config[key]) and not config.get('suppress_warnings', False)"],
+          'overriding a default name needs suppress_warnings'),
+    Cross('name collisions', MHQ + 'validate_no_collisions', ['_D[_K1].intersection(_D[_K2])', '_D[_K1] & _D[_K2]'],
+          'variables and user constants may not share a name', inline=1),
+    Cross('single answer', LGQ + 'schema_answers', 'isinstance(answers_tuple, list) and len(answers_tuple) == 1',
+          'a ListGrader needs more than one answer'),
+    Cross('equal list lengths', LGQ + 'schema_answers', 'len(_L) != len(answers_tuple[0])',
+          'alternative answer lists must have the same length', loop='answers_tuple'),
+    Cross('answer/subgrader count', LGQ + 'schema_answers',
+          "self.subgrader_list and len(self.config['subgraders']) != len(answers_tuple[0])",
+          'a list of subgraders must match the number of answers'),
+    Cross('unordered + subgrader list', LGQ + 'schema_answers', "self.subgrader_list and not self.config['ordered']",
+          'unordered lists only with a single subgrader'),
+    Cross('grouping contiguity', LGQ + 'create_grouping_map',
+          ['set(grouping) != set(range(1, max(set(grouping)) + 1))', 'set(grouping) != set(range(1, max(grouping) + 1))'],
+          'groups must be numbered 1..n without gaps'),
+    Cross('grouping needs list-capable subgrader', LGQ + 'validate_grouping',
+          "not self.subgrader_list and not isinstance(self.config['subgraders'], ListGrader)",
+          'a single subgrader of a grouped ListGrader must be a ListGrader'),
+    Cross('unordered groups equal size', LGQ + 'validate_grouping', "not self.config['ordered'] and len(_G) != len(self.grouping[0])",
+          'unordered groups must have equal sizes', loop='self.grouping'),
+    Cross('groups/subgraders count', LGQ + 'validate_grouping',
+          "self.subgrader_list and len(self.grouping) != len(self.config['subgraders'])",
+          'number of groups must equal the number of subgraders'),
+    Cross('multi-item group needs ListGrader', LGQ + 'validate_grouping',
+          "self.subgrader_list and len(_G) > 1 and not isinstance(self.config['subgraders'][_I], ListGrader)",
+          'a group with several inputs must be graded by a ListGrader'),
+    Cross('nested delimiters', SLQ + '__init__',
+          "isinstance(self.config['subgrader'], SingleListGrader) and _S.config['delimiter'] in _D",
+          'nested SingleListGraders need distinct delimiters', inline=0),
+    Cross('equal expect lengths', SLQ + 'post_schema_ans_val', "len(_E) != len(answer_tuple[0]['expect'][0])",
+          'alternative answer lists must have the same length'),
+    Cross('det 0 traceless', SQM, DET0 + " and self.config['traceless']", 'zero-determinant traceless matrices are refused'),
+    Cross('det 0 complex antisymmetric', SQM, DET0 + " and self.config['symmetry'] == 'antisymmetric' and self.config['complex']",
+          'complex zero-determinant antisymmetric matrices are refused'),
+    Cross('det 0 even antisymmetric', SQM, DET0 + " and self.config['symmetry'] == 'antisymmetric' and self.config['dimension'] % 2 == 0",
+          'real zero-determinant antisymmetric matrices in even dimensions are refused'),
+    Cross('det 1 real traceless diagonal 2x2', SQM, DET1 + " and self.config['dimension'] == 2 and self.config['traceless'] and "
+          "self.config['symmetry'] == 'diagonal' and not self.config['complex']", 'no such matrix exists'),
+    Cross('det 1 real traceless symmetric 2x2', SQM, DET1 + " and self.config['dimension'] == 2 and self.config['traceless'] and "
+          "self.config['symmetry'] == 'symmetric' and not self.config['complex']", 'no such matrix exists'),
+    Cross('det 1 traceless hermitian 2x2', SQM, DET1 + " and self.config['dimension'] == 2 and self.config['traceless'] and "
+          "self.config['symmetry'] == 'hermitian'", 'no such matrix exists'),
+    Cross('det 1 odd antisymmetric', SQM, DET1 + " and self.config['dimension'] % 2 == 1 and self.config['symmetry'] == 'antisymmetric'",
+          'no such matrix exists'),
+    Cross('det 1 odd antihermitian', SQM, DET1 + " and self.config['dimension'] % 2 == 1 and self.config['symmetry'] == 'antihermitian'",
+          'no such matrix exists'),
+    Cross('min_length needs one shape', 'mitxgraders.helpers.calc.specify_domain.SpecifyDomain.__init__',
+          "self.config['min_length'] is not None and len(self.config['input_shapes']) != 1", 'min_length requires a single shape'),
+    Cross('interval answer has 4 entries', IVQ + 'post_schema_ans_val', 'len(_E) != 4', 'an interval answer has four entries'),
+    Cross('opening bracket one character', IVQ + 'post_schema_ans_val', 'len(_F) != 1', 'brackets are single characters', loop='_X[0]'),
+    Cross('opening bracket allowed', IVQ + 'post_schema_ans_val', "_F not in self.config['opening_brackets']",
+          'opening bracket must be one of opening_brackets'),
+    Cross('closing bracket one character', IVQ + 'post_schema_ans_val', 'len(_F) != 1', 'brackets are single characters', loop='_X[3]'),
+    Cross('closing bracket allowed', IVQ + 'post_schema_ans_val', "_F not in self.config['closing_brackets']",
+          'closing bracket must be one of closing_brackets'),
+    Cross('input positions repeated', SGB + 'validate_input_positions', 'len(_L) > len(_S)', 'an input position may be used once', inline=0),
+    Cross('input positions consecutive', SGB + 'validate_input_positions', '_S != set(range(1, len(_S) + 1))',
+          'input positions are 1..n', inline=0),
+    Cross('dependent sampler formula', 'mitxgraders.sampling.DependentSampler.__init__', None, 'the formula must parse',
+          handler='CalcError'),
+]
+
+# (caller, callee name, guard pattern or None, argument patterns or None, how many calls)
+HOPS = [
+    ('mitxgraders.formulagrader.formulagrader.FormulaGrader.__init__', 'validate_math_config', None, None, 1),
+    (SGB + '__init__', 'validate_math_config', None, None, 1),
+    (SGB + '__init__', 'validate_input_positions', None, ["self.config['input_positions']"], 1),
+    ('mitxgraders.helpers.math_helpers.MathMixin.validate_math_config', 'validate_blacklist_whitelist_config', None,
+     ['self.default_functions', "self.config['blacklist']", "self.config['whitelist']"], 1),
+    ('mitxgraders.helpers.math_helpers.MathMixin.validate_math_config', 'validate_no_collisions', None, None, 1),
+    (LGQ + '__init__', 'schema_answers', None, ["self.config['answers']"], 1),
+    (LGQ + '__init__', 'create_grouping_map', "self.config['grouping']", ["self.config['grouping']"], 1),
+    (LGQ + '__init__', 'validate_grouping', "self.config['grouping']", None, 1),
+    (IG + '.__init__', 'post_schema_ans_val', None, ["self.config['answers']"], 1),
+]
+WARN_KEYS = {'variables': 'default_variables', 'numbered_vars': 'default_variables', 'user_constants': 'default_variables',
+             'user_functions': 'default_functions'}
+ERROR_BASES = ('ConfigError', 'Invalid', 'MultipleInvalid', 'MITxError')
+
+
+def d5_cross(ctx, idx, fam):
+    r = ctx.rule('D5.CROSS', 'every cross-option rule has a reachable raise site with the reviewed condition, and its checker '
+                             'runs on every construction path', floor=47)
+    with r:
+        used = {}
+        for c in CROSS_RULES:
+            construct = 'cross-rule [%s] in %s' % (c.key, c.func.split('.', 1)[1].replace('mitxgraders.', ''))
+            if not idx.has_func(c.func):
+                r.undecided(construct, 'anchor vanished: %s' % c.func)
+                continue
+            fi = idx.func(c.func)
+            fcfg = cfg_of(fi.node)
+            raises = [x for x in lib.raises_of(fi.node) if x.exc is not None]
+            cands = []
+            for rs in raises:
+                if id(rs) in used.get(c.func, set()):
+                    continue
+                if c.handler is not None:
+                    h = lib.in_handler(rs)
+                    if h is not None and c.handler in lib.handler_class_names(h):
+                        cands.append((rs, nf.MATCH))
+                    continue
+                gs = guards_of(rs, fi.node)
+                if not gs:
+                    continue
+                if c.loop is not None:
+                    if not any(nf.classify(c.loop, it) == nf.MATCH for it in enclosing_loop_iters(rs, fi.node)):
+                        continue
+                conj = gs[0] if len(gs) == 1 else ast.BoolOp(op=ast.And(), values=list(gs))
+                if c.inline:
+                    conj = lib.inline_locals(conj, fi.node, depth=c.inline)
+                res = nf.classify(list(c.patterns), conj)
+                cands.append((rs, res, conj))
+            exact = [x for x in cands if x[1] == nf.MATCH]
+            diffs = [x for x in cands if isinstance(x[1], tuple)]
+            if exact:
+                rs = exact[0][0]
+                used.setdefault(c.func, set()).add(id(rs))
+                where = lib.loc(fi, rs)
+                cls = nf.exc_class_name(rs.exc)
+                if not any(lib.exc_is_subclass(idx, fi.module, cls, b) for b in ERROR_BASES):
+                    r.violation(construct, "the rule '%s' is enforced by raising %s, which is neither a configuration nor a validation "
+                                "error" % (c.what, cls), where, expected='ConfigError', found=cls)
+                    continue
+                nodes = fcfg.nodes_of(rs)
+                if not nodes or not fcfg.reaches([fcfg.entry], nodes):
+                    r.violation(construct, "the raise site that enforces '%s' is unreachable: a configuration that breaks the rule is "
+                                "accepted" % c.what, where)
+                    continue
+                r.ok(construct, 'raises %s when %s' % (cls, short(exact[0][2]) if len(exact[0]) > 2 else 'parsing fails'), where)
+            elif diffs:
+                rs, res, conj = diffs[0]
+                used.setdefault(c.func, set()).add(id(rs))
+                r.violation(construct, "the condition that enforces '%s' changed: %s" % (c.what, res[1]), lib.loc(fi, rs),
+                            expected=c.patterns[0], found=short(conj))
+            else:
+                r.violation(construct, "no raise site enforces '%s' any more in %s: a configuration that breaks the rule is accepted"
+                            % (c.what, fi.qualname.replace('mitxgraders.', '')), fi.loc, expected='if %s: raise ConfigError(...)' % c.patterns[0])
+        # --- the checkers run on every construction path
+        for caller, callee, guard, argpats, count in HOPS:
+            construct = 'hop %s -> %s' % (caller.replace('mitxgraders.', ''), callee)
+            fi = idx.func(caller)
+            calls = lib.calls_named(fi.node, callee)
+            if not calls:
+                r.violation(construct, '%s no longer calls %s: the cross-option rules it enforces are never checked during construction'
+                            % (fi.qualname.replace('mitxgraders.', ''), callee), fi.loc, expected='a call of %s' % callee)
+                continue
+            call = calls[0]
+            fcfg = cfg_of(fi.node)
+            cn = lib.cfg_nodes_for(fcfg, call)
+            where = lib.loc(fi, call)
+            if guard is None:
+                if not fcfg.must_pass([fcfg.entry], cn, exits='return'):
+                    gs = guards_of(call, fi.node)
+                    r.violation(construct, 'a construction path finishes without calling %s%s' % (
+                        callee, ' (now only under `%s`)' % ' and '.join(unparse(g) for g in gs) if gs else ''), where)
+                    continue
+            else:
+                gs = guards_of(call, fi.node)
+                conj = gs[0] if len(gs) == 1 else (ast.BoolOp(op=ast.And(), values=list(gs)) if gs else None)
+                res = nf.classify(guard, conj) if conj is not None else nf.MATCH
+                if isinstance(res, tuple):
+                    r.violation(construct, 'the condition under which %s runs changed: %s' % (callee, res[1]), where, expected=guard,
+                                found=short(conj))
+                    continue
+                if res != nf.MATCH:
+                    r.undecided(construct, 'guard not recognised: %s' % short(conj), where)
+                    continue
+                if not fcfg.reaches([fcfg.entry], cn):
+                    r.violation(construct, 'the call of %s is unreachable' % callee, where)
+                    continue
+            if argpats is not None:
+                got = list(call.args) + [k.value for k in call.keywords]
+                bad = None
+                if len(got) != len(argpats):
+                    bad = 'called with %d argument(s)' % len(got)
+                else:
+                    for i, (p, a) in enumerate(zip(argpats, got)):
+                        res = nf.classify(p, a)
+                        if res != nf.MATCH:
+                            bad = 'argument %d is `%s` instead of `%s`' % (i + 1, short(a), p)
+                            break
+                if bad:
+                    r.violation(construct, '%s is checked against the wrong data: %s' % (callee, bad), where,
+                                expected='%s(%s)' % (callee, ', '.join(argpats)), found=short(call))
+                    continue
+            r.ok(construct, 'on every construction path' if guard is None else 'whenever %s' % guard, where)
+        # warn_if_override: one call per key, against the right defaults table; collisions over variables/user_constants
+        vm = idx.func('mitxgraders.helpers.math_helpers.MathMixin.validate_math_config')
+        vcfg = cfg_of(vm.node)
+        calls = lib.calls_named(vm.node, 'warn_if_override')
+        seen = {}
+        for c in calls:
+            if len(c.args) == 3 and isinstance(c.args[1], ast.Constant):
+                seen[c.args[1].value] = c
+        for key, defaults in sorted(WARN_KEYS.items()):
+            construct = "validate_math_config: warn_if_override('%s')" % key
+            c = seen.get(key)
+            if c is None:
+                r.violation(construct, "the override check for '%s' is gone: an author can silently shadow a default %s"
+                            % (key, 'function' if defaults.endswith('functions') else 'constant'), vm.loc,
+                            expected="warn_if_override(self.config, '%s', self.%s)" % (key, defaults))
+                continue
+            ok = nf.classify('self.config', c.args[0]) == nf.MATCH and nf.classify('self.' + defaults, c.args[2]) == nf.MATCH
+            reach = vcfg.must_pass([vcfg.entry], lib.cfg_nodes_for(vcfg, c), exits='return')
+            r.check(ok and reach, construct, 'against self.%s, on every path' % defaults,
+                    "the override check for '%s' %s" % (key, 'is skipped on some path' if ok else 'compares with `%s` instead of self.%s'
+                                                          % (short(c.args[2]), defaults)), lib.loc(vm, c),
+                    expected="warn_if_override(self.config, '%s', self.%s)" % (key, defaults), found=short(c))
+        cols = lib.calls_named(vm.node, 'validate_no_collisions')
+        if cols:
+            keys = lib.get_kw(cols[0], 'keys', 1)
+            val = nf.const_value(keys)
+            r.check(isinstance(val, (list, tuple)) and {'variables', 'user_constants'} <= set(val),
+                    'validate_math_config: validate_no_collisions keys', "covers 'variables' and 'user_constants'",
+                    'the collision check no longer covers both variables and user_constants (keys=%s)' % short(keys),
+                    lib.loc(vm, cols[0]), expected="keys=['variables', 'user_constants']", found=short(keys))
+        # sample_from is re-validated against the declared variables (orphaned entries are rejected by the closed schema)
+        stores = [s for s in walk_own(vm.node) if isinstance(s, ast.Assign) and len(s.targets) == 1
+                  and nf.config_key(s.targets[0]) == 'sample_from']
+        ok = False
+        for s in stores:
+            if isinstance(s.value, ast.Call) and s.value.args and nf.config_key(s.value.args[0]) == 'sample_from':
+                ok = True
+        r.check(ok, 'validate_math_config: sample_from', 're-validated with a schema over variables + numbered_vars',
+                "config['sample_from'] is no longer validated against the declared variables: entries for undeclared variables are "
+                "accepted", vm.loc)
